@@ -151,3 +151,50 @@ func H_C05_copy() {
 	vobserve("len", uint64(len(out.buf)))
 	vcover("end")
 }
+
+// H_C05_copy2: a source stream that switches symbol tables: LST1 ["p","q"]  $x  {$y:1}   LST2 ["q","p"]  $x2  {$y2:2}
+// (x, y, x2, y2 in {10, 11}; binary, or the equivalent text). The same ID means another text after the second table;
+// the copy must carry each symbol by the text it had at that point of the source.
+func H_C05_copy2() {
+	src := vparam("src", 0)
+	dst := vparam("dst", 2)
+	pick := func() uint8 { return []uint8{10, 11}[vnondetInt(0, 1)] }
+	x, y, x2, y2 := pick(), pick(), pick(), pick()
+	var r Reader
+	if src == 0 {
+		lst := func(a, b string) []byte {
+			return vTLV(0xE0, vCat([]byte{0x81, 0x83}, vTLV(0xD0, vCat([]byte{0x87}, vTLV(0xB0, vCat(vStr(a), vStr(b))...))...))...)
+		}
+		r = NewReaderBytes(vCat(vBVM, lst("p", "q"), []byte{0x71, x}, vTLV(0xD0, 0x80|y, 0x21, 1), lst("q", "p"), []byte{0x71, x2}, vTLV(0xD0, 0x80|y2, 0x21, 2)))
+	} else {
+		doc := "$ion_symbol_table::{symbols:[\"p\",\"q\"]} $" + vSidText(x) + " {$" + vSidText(y) + ":1} $ion_symbol_table::{symbols:[\"q\",\"p\"]} $" + vSidText(x2) + " {$" + vSidText(y2) + ":2}"
+		r = NewReaderString(doc)
+	}
+	out := &vSink{failAt: -1}
+	wr := vNewWriter(dst, out)
+	vassert(vCopyAll(r, wr), "the copy loop succeeds on an accepted document")
+	vassert(wr.Finish() == nil, "Finish succeeds")
+	t1 := []string{"p", "q"}
+	t2 := []string{"q", "p"}
+	want := [4]string{t1[x-10], t1[y-10], t2[x2-10], t2[y2-10]}
+	var got [4]vSym
+	if dst >= 2 {
+		d, ok := refBinDecode(out.buf, nil)
+		vassert(ok && !d.unsure && !d.undef, "binary copy is well-formed and self-contained under the independent decoder")
+		us := d.user()
+		vassert(len(us) == 6 && us[2].hasField && us[5].hasField, "the copy holds the same values")
+		conv := func(s rSym) vSym { return vSym{present: true, hasText: s.known, text: s.text, sid: int64(s.sid)} }
+		got = [4]vSym{conv(us[0].sym), conv(us[2].field), conv(us[3].sym), conv(us[5].field)}
+	} else {
+		r2 := NewReaderBytes(out.buf)
+		var evs []vEv
+		stepErr := vTraverse(r2, 0, 4, false, &evs)
+		vassert(!stepErr && r2.Err() == nil, "text copy is read back without error")
+		vassert(len(evs) == 6 && evs[2].field.present && evs[5].field.present, "the copy holds the same values")
+		got = [4]vSym{evs[0].sym, evs[2].field, evs[3].sym, evs[5].field}
+	}
+	for i := range want {
+		vassert(got[i].hasText && got[i].text == want[i], "every symbol is carried by the text it had at that point of the source")
+	}
+	vcover("end")
+}
